@@ -12,8 +12,16 @@ ROOTS = ["let", "const", "forindex", "forindex_str", "forindex_named_str", "fori
 # (source suffix applied to the root variable `v`, model path letters outermost-first, type of the place)
 PATHS = [("", "-", "P"), (".X", "f", "i32"), (".In.X", "ff", "i32"), (".Q[0]", "if", "i32"), ("(v).X", "fp", "i32"), (".In.Q[1]", "iff", "i32"),
          ("((v).In).X", "fpfp", "i32"), (".In", "f", "In"), (".Q[1]", "if", "i32")]
+# places inside a HOLDER struct whose fields / elements are themselves references: (suffix, letters, type of the place, place is itself `imm`/`mut` reference or None)
+# letters: F / I = the step yields `&T`, G / J = the step yields `&'T`
+HOLDER_ROOTS = ["let_h", "const_h", "param_val_h", "param_ref_h", "param_mut_h", "recv_mut_h", "local_mut_h"]
+HOLDER_PATHS = [(".R.X", "fF", "i32", None), (".R.In.X", "ffF", "i32", None), (".R.Q[0]", "ifF", "i32", None), (".RS[1].X", "fIf", "i32", None), (".RS[0].In", "fIf", "In", None),
+                ("(v.R).X", "fpF", "i32", None), (".R", "F", "P", "imm"), (".RS[0]", "If", "P", "imm"),
+                (".M.X", "fG", "i32", None), (".MS[0].X", "fJf", "i32", None), (".M.In", "fG", "In", None), (".M.In.Q[1]", "iffG", "i32", None), (".M", "G", "P", "mut"), (".MS[0]", "Jf", "P", "mut")]
+HOLDER_PRE = "type HH struct { .R: &P, .M: &'P, .RS: [2]&P, .MS: [1]&'P };\n"
 FORMS = ["assign", "assign_ref", "compound", "incdec", "mutborrow", "passmut", "mutmethod"]
-MODEL_ROOT = {"forindex_str": "forindex", "forindex_named_str": "forindex", "forindex_range": "forindex", "forindex_map": "forindex"}
+MODEL_ROOT_H = {"let_h": "let", "const_h": "const", "param_val_h": "param_val", "param_ref_h": "param_ref", "param_mut_h": "param_mut", "recv_mut_h": "recv_mut", "local_mut_h": "local_mut"}
+MODEL_ROOT = {**MODEL_ROOT_H, "forindex_str": "forindex", "forindex_named_str": "forindex", "forindex_range": "forindex", "forindex_map": "forindex"}
 MODEL_FORM = {"assign_ref": "assign"}
 CONTEXTS = ["plain", "loop", "matcharm", "closure", "ifelse"]
 PRE = '''import "std/io";
@@ -67,6 +75,21 @@ def program(root, path, ty, form, ctx):
     if path == "" and form in ("mutborrow", "passmut", "assign_ref") and root.endswith(("_ref", "_mut")):
         return None      # `&'v` of a variable that already is a reference / `v = &x` rebinding it: not a mutation of the referent
     SRC = "    let srcI: i32 = 3;\n    let srcIn: In = mkIn();\n    let srcP: P = mk();\n"
+    if root.endswith("_h"):
+        hold = "    let a0: P = mk();\n    let a1: P = mk();\n    let b0: P = mk();\n    let b1: P = mk();\n"
+        lit = "{ .R = &a0, .M = &'b0, .RS = [&a0, &a1], .MS = [&'b1] } as HH"
+        body = SRC + wrap(st, ctx)
+        pre = PRE + HOLDER_PRE
+        if root == "let_h": return pre + "fn main() {\n" + hold + "    let v: HH = " + lit + ";\n%s\n}\n" % body
+        if root == "const_h": return pre + "fn main() {\n" + hold + "    const v: HH = " + lit + ";\n%s\n}\n" % body
+        if root == "local_mut_h": return pre + "fn main() {\n" + hold + "    let h: HH = " + lit + ";\n    let v: &'HH = &'h;\n%s\n}\n" % body
+        if root.startswith("param"):
+            pt = {"param_val_h": "HH", "param_ref_h": "&HH", "param_mut_h": "&'HH"}[root]
+            arg = {"param_val_h": "h", "param_ref_h": "&h", "param_mut_h": "&'h"}[root]
+            return pre + "fn f(v: %s) {\n%s\n}\nfn main() {\n%s    let h: HH = %s;\n    f(%s);\n}\n" % (pt, body, hold, lit, arg)
+        if root == "recv_mut_h":
+            return pre + "fn (v: &'HH) Run() {\n%s\n}\nfn main() {\n%s    let h: HH = %s;\n    h.Run();\n}\n" % (body, hold, lit)
+        raise ValueError(root)
     if root.startswith("forindex") and root != "forindex_map":
         if path != "" or form == "mutmethod": return None
         st = st.replace("mk()", "7").replace("takeP", "takeI").replace("&'P", "&'i32").replace("&srcP", "&srcI")
@@ -95,7 +118,7 @@ def program(root, path, ty, form, ctx):
     if root == "local_mut": return PRE + "fn main() {\n    let a: P = mk();\n    let v: &'P = &'a;\n%s\n}\n" % body
 
 
-MUT_ERRORS = ("cannot assign to constant", "cannot modify read-only", "cannot modify through immutable", "cannot take mutable reference of a read-only",
+MUT_ERRORS = ("cannot assign through immutable", "cannot assign to constant", "cannot modify read-only", "cannot modify through immutable", "cannot take mutable reference of a read-only",
               "cannot take reference of this expression", "cannot take reference of a reference")
 
 
@@ -117,6 +140,15 @@ def main():
                     # closures capture by reference; a closure context for parameters of reference type is kept too
                     p = program(r, path, ty, f, ctx)
                     if p: cases.append((r, path, letters, ty, f, ctx, p))
+    refplace = {}
+    for r in HOLDER_ROOTS:
+        for (path, letters, ty, rp) in HOLDER_PATHS:
+            for f in FORMS:
+                if rp and f in ("assign_ref", "mutborrow", "passmut"): continue   # `v.R = &x` (rebinding or write-through) and `&'` of a place that already is a reference are not the property's concern
+                for ctx in CONTEXTS:
+                    p = program(r, path, ty, f, ctx)
+                    if p:
+                        cases.append((r, path, letters, ty, f, ctx, p)); refplace[(r, path)] = rp
     if tier == "quick":
         rng = SplitMix64(seed() * 2654435761 + 6)
         cases = [c for c in cases if c[5] == "plain" or rng.below(3) == 0]
@@ -143,7 +175,8 @@ def main():
         if immut and not rejected:
             rep.fail("mutated:" + key, "mutation form `%s` of place `%s` rooted in an immutable binding (%s), inside a %s, is ACCEPTED" % (f, place(path), root, ctx),
                      {"kind": "input", "files": {"main.fer": text}, "cmd": "ferret -t main.fer", "expected": "compile error", "observed": "accepted"})
-        if not immut and rejected and not (path == "" and f in ("mutborrow", "passmut") and root.endswith(("_ref", "_mut"))):
+        if not immut and rejected and not (path == "" and f in ("mutborrow", "passmut") and root.endswith(("_ref", "_mut"))) \
+                and not (refplace.get((root, path)) and f in ("mutborrow", "passmut")):      # `&'` of a place that already is a reference
             rep.fail("misrejected:" + key, "mutation form `%s` of mutable place `%s` (%s, %s) is rejected: %s" % (f, place(path), root, ctx, mut_err[0][:100]),
                      {"kind": "input", "files": {"main.fer": text}, "cmd": "ferret -t main.fer", "expected": "accepted", "observed": mut_err[0]})
 
@@ -171,7 +204,7 @@ def main():
         "trusted_base": ["Lean 4 kernel", "axioms: " + ", ".join(sorted({a for v in axioms.values() if v for a in v})), "program templates per (root, path, form, context)", "diagnostic text classes"],
         "theorems": [{"name": nm, "axioms": axioms.get(nm)} for nm in names],
         "evaluations": len(cases), "distinct_nontrivial": st["immutable_roots"],
-        "rule": "product of 16 root kinds (incl. two-variable loops over array, string, named string type, range, map key) x 9 access paths (ident, field chains, indices, parentheses, depth <= 3) x 7 mutation forms (assignment also with a reference-typed right-hand side) x 5 contexts (plain, loop, match arm, closure, else branch); "
+        "rule": "HOLDER cases: 7 root kinds of a struct whose fields / array elements are `&T` and `&'T` references x 14 places reached through such a held reference (at the end, in the middle of the path, parenthesised) x forms x contexts; product of 16 root kinds (incl. two-variable loops over array, string, named string type, range, map key) x 9 access paths (ident, field chains, indices, parentheses, depth <= 3) x 7 mutation forms (assignment also with a reference-typed right-hand side) x 5 contexts (plain, loop, match arm, closure, else branch); "
                 "thorough = the whole product, quick = all plain-context cases + a seeded third of the others; non-trivial = cases rooted in an immutable binding",
         "exhaustive": tier != "quick",
         "samples": ["%s|%s|%s|%s" % (c[0], c[1] or "v", c[4], c[5]) for c in cases[7:len(cases):max(1, len(cases) // 8)]],
